@@ -33,11 +33,16 @@ inductive Mode where
   | fast | locked | serializable
   deriving DecidableEq, Repr
 
-/-- how the block was written; carried so that a case names the Python form to run.  After the repair of
-D12 (`async with TransactionContextDecorator(self._mode, self._timeout)` per call) no state lives on the
-shared decorator object, hence no rule below looks at it. -/
+/-- how the block was written; carried so that a case names the Python form to run: `ctx` = `async with cache.transaction(m):`
+on a context object of its own, `dec` = a call of THE function decorated with `@cache.transaction(m)` (one decorated function
+shared by all tasks), `obj` = `async with T:` on THE context object `T = cache.transaction(m)` kept at module level and shared by
+all tasks (entered by several tasks at once, and by one task nested in itself).  After the repair of D12
+(`async with TransactionContextDecorator(self._mode, self._timeout)` per call) and of D45 (what a block has to remember -
+which transaction it started, how many of its open blocks joined a running one - is kept per TRANSACTION, i.e. per task
+context, not per object: `_started[tx]`, `_inner[tx]`) no state is shared between the tasks that use one object, hence no rule
+below looks at the form. -/
 inductive Form where
-  | ctx | dec
+  | ctx | dec | obj
   deriving DecidableEq, Repr
 
 /-- The exception object a body raises, by the two features of it that code deciding between commit and rollback could (wrongly)
@@ -50,7 +55,12 @@ structure Exc where
   falsy : Bool
   deriving DecidableEq, Repr
 
-/-- body commands; `nestIn/nestOut` open and close a nested transaction block -/
+/-- body commands; `nestIn/nestOut` open and close a nested transaction block (a nested `async with cache.transaction()` or a
+call of a decorated function from inside a transaction).  `nestOut none`: the inner block's body ran to its end;
+`nestOut (some e)`: the inner block is LEFT BY THE EXCEPTION `e`, which the enclosing body catches right outside the block
+(`try: async with cache.transaction(): …; raise e` / `except: pass`) and goes on.  Either way `__aexit__` of an inner block
+does nothing (`if self._inner: self._inner -= 1; return`): nested blocks are flat, the transaction is not marked in any way by
+the failure of an inner block, and the outermost block commits everything buffered if ITS body finishes normally. -/
 inductive Cmd where
   | set (k : Nat) (v : Int)
   | incr (k : Nat) (n : Int)
@@ -61,7 +71,7 @@ inductive Cmd where
   | sleep (d : Nat)            -- `await asyncio.sleep(d/8)`: a suspension that is not a backend command
   | raise (e : Exc)            -- the body raises the exception object `e` (any class, truthy or falsy)
   | nestIn (f : Form)
-  | nestOut
+  | nestOut (caught : Option Exc)
   | commit                     -- `await tx.commit()` on the `Transaction` that `async with cache.transaction() as tx` returned
   | rollback                   -- `await tx.rollback()`
   deriving DecidableEq, Repr
@@ -259,7 +269,7 @@ def localCmd (t : Task) : Cmd → Option Task
   | .sleep _ => none
   | .raise _ => none
   | .nestIn _ => some { t with depth := t.depth + 1 }   -- `__aenter__` with a current transaction: `_inner = True`
-  | .nestOut => some { t with depth := t.depth - 1 }    -- `__aexit__` of an inner block: nothing
+  | .nestOut _ => some { t with depth := t.depth - 1 }  -- `__aexit__` of an inner block, with or without `exc_tb`: nothing
   | .commit =>
     -- `Transaction.commit()` → `LockTransactionBackend.commit()`: `try: super().commit() finally: _unlock_updates()`;
     -- with nothing buffered and no lock held no backend command is issued
@@ -306,7 +316,7 @@ def park (now : Nat) (t : Task) (c : Cmd) (rest : List Cmd) : Task :=
       if holds t k then { t with prog := rest, pc := .existsGet k v e } else lockOrFail t k (c :: rest)
     else { t with prog := rest, pc := .direct c }
   | .nestIn _ => t
-  | .nestOut => t
+  | .nestOut _ => t
   | .commit =>
     -- `if self._to_delete: await backend.delete_many(...)`, `await backend.set_many(...)`, `finally: _unlock_updates()`
     if t.del ≠ [] then { t with prog := rest, pc := .midDel }
